@@ -815,18 +815,19 @@ impl rustc_driver::Callbacks for Cb {
                         ("ty_s", s(t)),
                     ]));
                 }
-                DefKind::Fn | DefKind::AssocFn | DefKind::Closure => {
-                    if matches!(tcx.def_kind(d), DefKind::Fn | DefKind::AssocFn) {
-                        fns.push(J::O(vec![
-                            ("path", s(cx.path(d))),
-                            ("has_body", J::B(tcx.is_mir_available(d))),
-                        ]));
-                    }
-                    if let Some(b) = cx.body(ld) {
-                        bodies.push(b);
-                    }
+                DefKind::Fn | DefKind::AssocFn => {
+                    fns.push(J::O(vec![
+                        ("path", s(cx.path(d))),
+                        ("has_body", J::B(tcx.is_mir_available(d))),
+                    ]));
                 }
                 _ => {}
+            }
+        }
+        // bodies: every body owner (functions, methods, closures)
+        for ld in tcx.hir_body_owners() {
+            if let Some(b) = cx.body(ld) {
+                bodies.push(b);
             }
         }
         // crate attributes
